@@ -36,7 +36,9 @@ class time_limit:  # noqa: N801
 
     def __enter__(self) -> None:
         self._old = signal.signal(signal.SIGALRM, _on_alarm)
-        signal.setitimer(signal.ITIMER_REAL, self.seconds)
+        # repeating: an alarm that lands inside a GC callback / __del__ is swallowed ("Exception ignored"),
+        # so keep firing until the block is left
+        signal.setitimer(signal.ITIMER_REAL, self.seconds, 0.05)
 
     def __exit__(self, *exc: Any) -> None:
         signal.setitimer(signal.ITIMER_REAL, 0)
